@@ -14,6 +14,28 @@ import EkwVerif.Lemmas.CtrlInv1Step
 
 namespace EkwVerif.Ctrl
 
+/-- from `Inv2X.flight_unique`: a task is in flight on at most one worker
+(own copy, so that this file only depends on the *fields* of `Inv2X`) -/
+theorem i2a_uniq_of_nodup (s : Sys) (h : ((s.ctl.ongoing ++ s.todoPairs).map (·.2)).Nodup) :
+    ∀ w w' t, s.inFlight w t → s.inFlight w' t → w = w' := by
+  intro w w' t h1 h2
+  have m1 : (w, t) ∈ s.ctl.ongoing ++ s.todoPairs := by
+    simp only [Sys.inFlight] at h1; exact List.mem_append.mpr h1
+  have m2 : (w', t) ∈ s.ctl.ongoing ++ s.todoPairs := by
+    simp only [Sys.inFlight] at h2; exact List.mem_append.mpr h2
+  generalize s.ctl.ongoing ++ s.todoPairs = l at h m1 m2
+  induction l with
+  | nil => simp at m1
+  | cons x l ih =>
+    simp only [List.map_cons, List.nodup_cons, List.mem_map, not_exists, not_and] at h
+    rcases List.mem_cons.mp m1 with e1 | m1
+    · rcases List.mem_cons.mp m2 with e2 | m2
+      · rw [← e1] at e2; simp only [Prod.mk.injEq] at e2; exact e2.1.symm
+      · exact absurd (by rw [← e1]) (h.1 _ m2)
+    · rcases List.mem_cons.mp m2 with e2 | m2
+      · exact absurd (by rw [← e2]) (h.1 _ m1)
+      · exact ih h.2 m1 m2
+
 /-! ### controller functions: frames and errors -/
 
 theorem i2a_buildPrep_mem (cl : Cluster) (w : Worker) (cands : List (Ds × Host)) (l : List Ds) (c c' : Ctl)
@@ -611,7 +633,7 @@ theorem i2a_step_env (f : Sem) (j : Job) (cl : Cluster) (s s' : Sys) (es : EnvSt
         have hq0 := List.mem_of_mem_erase hq'
         have hne : t' ≠ t := by
           intro heq; subst heq
-          have := hx.uniq w' w t' (h1.queued_flight _ _ hq0) hfw
+          have := i2a_uniq_of_nodup s hx.flight_unique w' w t' (h1.queued_flight _ _ hq0) hfw
           subst this
           exact List.Nodup.not_mem_erase h1.queued_nodup hq'
         rw [upd_other _ _ _ _ hne]
